@@ -116,6 +116,9 @@ add("C16", "exploration", [
     {"name": "c16-args", "bin": "c16", "pkg": ZZ + "c16", "run": "^TestVerifC16Arguments$",
      "shards": {"quick": 6, "thorough": 12}, "checks": {"quick": 60, "thorough": 2500},
      "timeout": {"quick": 600, "thorough": 3000}},
+    {"name": "c16-multi", "bin": "c16", "pkg": ZZ + "c16", "run": "^TestVerifC16MultiResult$",
+     "shards": {"quick": 8, "thorough": 16}, "checks": {"quick": 12, "thorough": 200},
+     "timeout": {"quick": 900, "thorough": 3000}, "shrinktime": "60s"},
     {"name": "c16-diff", "bin": "c16", "pkg": ZZ + "c16", "run": "^TestVerifC16LocationsDiff$",
      "shards": {"quick": 4, "thorough": 8}, "checks": {"quick": 2000, "thorough": 60000},
      "timeout": {"quick": 600, "thorough": 3000}},
